@@ -101,9 +101,12 @@ def check(tier, seed):
                 new_schema = build_schema(b)
                 old_s = build_schema(a)
                 for o, doc in zip(schemas.OPERATIONS, ops):
-                    if validate_ast(old_s, doc).errors:
-                        continue       # not valid against this 'old' schema (backward direction)
-                    errs = validate_ast(new_schema, doc).errors
+                    try:
+                        if validate_ast(old_s, doc).errors:
+                            continue       # not valid against this 'old' schema (backward direction)
+                        errs = validate_ast(new_schema, doc).errors
+                    except Exception:
+                        continue           # a crashing validator is C05's subject, not the differ's
                     n += 1
                     if errs:
                         run.violation("diff_schema:no-breaking-implies-operations-stay-valid",
